@@ -59,6 +59,8 @@ fn main() {
     }
     let seed: u64 = std::env::var("VERIF_SEED").ok().and_then(|s| s.trim().parse::<i128>().ok()).map(|v| v as u64).unwrap_or(1);
     let vdir = verif_dir();
+    // the library reads golden files relative to this directory
+    std::env::set_var("VERIF_DIR", &vdir);
     let known: KnownFile = std::fs::read_to_string(vdir.join("known_findings.json"))
         .ok()
         .and_then(|t| serde_json::from_str(&t).ok())
